@@ -18,6 +18,19 @@ class Gen:
         self.uid += 1
         return "%s%d" % (p, self.uid)
 
+    def fresh_or_shadow(self, p, sc):
+        """a fresh name or, one time in four, a name declared by an enclosing scope (variable, constant,
+        parameter, function, array): the new declaration shadows it from here to the end of its block"""
+        if self.r.random() < .25 and len(sc) > 1:
+            own = set(sc[-1])
+            if "\0fnbody" in sc[-1]: own |= set(sc[-2])      # parameters live in the scope of the function body
+            cands = [n for n, t in self.visible(sc[:-1], lambda t: t in ("int", "const", "undef", "loopvar") or t.startswith("arr:") or t.startswith("fn:"))
+                     if n not in own]
+            if cands:
+                self.count("shadow-outer-name")
+                return self.r.choice(cands)
+        return self.fresh(p)
+
     # ---- scopes: list of dicts name -> type; types: int, bool, arr:<n> (fixed length int array), fn:<np>:<variadic>, const
     def visible(self, scopes, pred):
         seen, out = set(), []
@@ -92,16 +105,20 @@ class Gen:
         r = self.r
         np = r.randrange(0, 4)
         variadic = np > 0 and r.random() < .3
-        ps = [self.fresh("p") for _ in range(np)]
+        ps = []
+        for _ in range(np):
+            p = self.fresh_or_shadow("p", sc + [{}])
+            if p in ps: p = self.fresh("p")
+            ps.append(p)
         inner = sc + [dict((p, "int") for p in (ps[:-1] if variadic else ps))]
         if variadic: inner[-1][ps[-1]] = "arr:0"
-        body = self.block(inner, 1, False, True, n=r.randrange(0, 3))
+        body = self.block(inner, 1, False, True, n=r.randrange(0, 3), fnbody=True)
         body.append(["ret", self.int_expr(inner + [{}], 1)])
         self.count("func")
         return ["func", ps, "1" if variadic else "0", body], "fn:%d:%d" % (np, 1 if variadic else 0)
 
-    def block(self, sc, depth, in_loop, in_func, n=None):
-        sc = sc + [{}]
+    def block(self, sc, depth, in_loop, in_func, n=None, fnbody=False):
+        sc = sc + [{"\0fnbody": "marker"} if fnbody else {}]
         out = []
         for _ in range(n if n is not None else self.r.randrange(1, 4)):
             out += self.stmt(sc, depth, in_loop, in_func)
@@ -114,17 +131,18 @@ class Gen:
         ints = self.visible(sc, lambda t: t == "int")
         if depth >= self.max_depth and k in (8, 9, 10, 11, 14, 15, 16): k = 0
         if k in (0, 1):
-            x = self.fresh("x"); e = self.int_expr(sc); cur[x] = "int"; self.count("define")
+            x = self.fresh_or_shadow("x", sc); e = self.int_expr(sc); cur[x] = "int"; self.count("define")
             return [["def", x, e]]
         if k == 2:
-            x = self.fresh("x"); self.count("var")
+            x = self.fresh_or_shadow("x", sc); self.count("var")
             if r.random() < .5: cur[x] = "undef"; return [["var", x, "-"]]
             e = self.int_expr(sc); cur[x] = "int"; return [["var", x, e]]
         if k == 3:
             self.count("const-iota")
             items, prev = [], False
             for i in range(r.randrange(1, 5)):
-                x = self.fresh("c")
+                x = self.fresh_or_shadow("c", sc)
+                if x in [y for y, _ in items]: x = self.fresh("c")
                 if not prev or r.random() < .4:
                     e = r.choice([["iota"], ["bin", "add", ["iota"], ["i", str(r.randrange(5))]], ["bin", "mul", ["iota"], ["i", "2"]], ["i", str(r.randrange(9))]])
                     items.append([x, e]); prev = True
@@ -142,7 +160,7 @@ class Gen:
                 idx = ["i", str(r.randrange(int(t[4:])))]
                 if r.random() < .5: idx = ["call", ["v", "log"], [idx], "-"]
                 return [["idxset", ["v", n], idx, self.int_expr(sc)]]
-            a = self.fresh("a"); n = r.randrange(0, 4); self.count("array")
+            a = self.fresh_or_shadow("a", sc); n = r.randrange(0, 4); self.count("array")
             lit = ["arr"] + [self.int_expr(sc) for _ in range(n)]
             cur[a] = "arr:%d" % n
             return [["def", a, lit]]
@@ -165,7 +183,7 @@ class Gen:
                 inner = sc + [{kk: "const", vv: "const"}]
                 return [["forin", kk, vv, ["v", r.choice(arrs)[0]], self.block(inner, depth + 1, True, in_func)]]
         if k == 11:
-            f = self.fresh("f"); lit, t = self.func_lit(sc); cur[f] = t
+            f = self.fresh_or_shadow("f", sc); lit, t = self.func_lit(sc); cur[f] = t
             return [["def", f, lit]]
         if k == 12 and in_loop:
             self.count("break-continue")
